@@ -214,7 +214,7 @@ package server
 //@   requires s != nil && ctx != nil && s.listener != nil && muState == 0
 //@   lockdiscipline[C17]
 //@   guarded[C17] listener, activeConnections
-//@   modifies s.isShutdown, s.activeConnections, closes, ctxErrCalls, atomicTrueLoads, faults, timerNs, timers, lastBoolStore
+//@   modifies s.isShutdown, s.activeConnections, closes, ctxErrCalls, atomicTrueLoads, faults, timerNs, timers, timerWrites, timerSleeps, lastBoolStore
 //@   ensures[C17.shutdown] muState == 0 && atomicval(s.isShutdown)
 //@   ensures[C17.shutdown] ctxErrCalls == old(ctxErrCalls) ==> atomicTrueLoads == passStart
 //@   ensures[C17.shutdown] ctxErrCalls != old(ctxErrCalls) ==> err != nil
